@@ -132,12 +132,31 @@ func runC15(r *Report) {
 		kc, _ := CallOfValue(nx[0].Common().Args[0])
 		r.Ob("R-C15-6", CallPos(nx[0]), kc != nil && CalleeOf(kc).Name == "getKey", "the marker key is built by getKey(id)", "tryMarkAsUsed", "key-ctor:mark")
 	}
-	ls := ComputeLockSets(mark, nil)
-	for _, c := range Calls(mark, false, "Exists", "Set") {
-		if !c.Common().IsInvoke() {
-			continue
+	// the fallback may live in a helper of tryMarkAsUsed (`markWithLocalLock`): the whole unit is scanned
+	for _, u := range samePkgReach(mark, 2) {
+		ls := ComputeLockSets(u, nil)
+		var exists, sets []ssa.CallInstruction
+		for _, c := range Calls(u, false, "Exists", "Set") {
+			if !c.Common().IsInvoke() {
+				continue
+			}
+			if CalleeOf(c).Name == "Exists" {
+				exists = append(exists, c)
+			} else {
+				sets = append(sets, c)
+			}
+			held := r.held(ls, c.(ssa.Instruction), "internal/core/idgen", "StorageIDGenerator", "mu") == "W" ||
+				callersHold(r.P, u, r.lockFor("internal/core/idgen", "StorageIDGenerator", "", "mu"), true, 2, map[*ssa.Function]bool{})
+			r.Ob("R-C15-2", CallPos(c), held, "the non-atomic fallback ("+CalleeOf(c).Name+") runs under the generator's mutex, write-locked", "tryMarkAsUsed", "fallback-locked:"+CalleeOf(c).Name)
 		}
-		r.Ob("R-C15-2", CallPos(c), r.held(ls, c.(ssa.Instruction), "internal/core/idgen", "StorageIDGenerator", "mu") == "W", "the non-atomic fallback ("+CalleeOf(c).Name+") runs under the generator's mutex", "tryMarkAsUsed", "fallback-locked:"+CalleeOf(c).Name)
+		for _, e := range exists {
+			for _, st := range sets {
+				if CanReach(e.Block(), st.Block()) {
+					ub := unlockBetween(e.(ssa.Instruction), st.(ssa.Instruction))
+					r.Ob("R-C15-2", CallPos(st), ub == nil, "the fallback's existence check and its write happen in one locked section (released in between, two callers both find the id free and both take it)", "tryMarkAsUsed", "fallback-one-section")
+				}
+			}
+		}
 	}
 	for _, name := range []string{"Release", "IsUsed"} {
 		f := genericMethod(r.P, idgPkg, "StorageIDGenerator", name)
